@@ -40,6 +40,15 @@ def cases():
         dict(kind='rule', dirs=[], name='Bar', body=choice(seq(lit('b'))))],
         inputs=[('R', 'bx')]))
     
+    # F9 (C03): a @string rule whose body has a multi-type field / a multi-type override
+    for kid, fn in (('F9a', 'a'), ('F9b', '@')):
+        out.append(dict(id='corpus' + kid, tags=['corpus'], rules=[
+            dict(kind='rule', dirs=['export'], name='T', body=choice(seq(F('s', 'S'), ('opt', choice(seq(F('p', 'P'))))))),
+            dict(kind='rule', dirs=['string'], name='S', body=choice(seq(F(fn, 'X')), seq(F(fn, 'Y')))),
+            dict(kind='rule', dirs=['string', 'position'], name='P', body=choice(seq(lit('+'), F(fn, 'X')), seq(lit('-'), F(fn, 'Y')))),
+            dict(kind='rule', dirs=[], name='X', body=choice(seq(lit('x')))),
+            dict(kind='rule', dirs=[], name='Y', body=choice(seq(lit('y'))))],
+            inputs=[('T', 'x'), ('T', 'y'), ('T', 'x+x'), ('T', 'y - y'), ('T', 'x+y'), ('T', 'z')]))
     # known findings K3s / K3g (C03): a field named like a local variable of the generated code (`state`, `global`) does not compile
     for kid, fname in (('K3s', 'state'), ('K3g', 'global')):
         out.append(dict(id='corpus' + kid, tags=['corpus', 'known_' + kid], solo=True, rules=[
